@@ -16,7 +16,9 @@ TRUST_ENGINE = ("Trusted: TLC, spec/Constraints.tla + spec/NucsAbs.tla, the reco
 TECH_CALLS = ("TLA+ trace validation: every recorded compute_domains call is one state of spec/CallTrace.tla judged by "
               "Constraints!CallVerdicts (TLC)")
 TECH_ENGINE = ("TLA+ trace validation: event traces of the real engine replayed through the actions of spec/NucsAbs.tla "
-               "by TLC (spec/AbsTrace.tla), every named clause evaluated at every event")
+               "by TLC (spec/AbsTrace.tla), every named clause evaluated at every event; the design (spec/NucsMech.tla) is "
+               "model-checked exhaustively on problem families and shown to refine NucsAbs (spec/MechRefines.tla: every "
+               "clause of Layer A holds on every step of the mechanism)")
 
 CHECKS = {
     "C01": ("model_checking", "Every yield / optimisation result of the real engine is a step of the TLA+ specification "
@@ -39,7 +41,9 @@ CHECKS = {
             "observed by interposition; a pass reaching 4x the bound is truncated and rejected), hangs are confirmed by "
             "a deterministic line-count cap, exceptions and 'nothing to branch on' have no counterpart in the "
             "specification. The call corpus is also executed under a watchdog (a loop inside one propagator call never "
-            "returns to the engine).", TRUST_ENGINE, TECH_ENGINE),
+            "returns to the engine). A shaving call is bounded by ShaveBound, a whole call (enumeration, optimisation) by RunBound: a "
+            "trace the recorder has to cut beyond that bound is rejected (C04:shaving-call-exceeds-its-bound, "
+            "C04:search-exceeds-its-bound); every decision-domain order x shaving on a systematic family.", TRUST_ENGINE, TECH_ENGINE),
     "C05": ("model_checking", "Every real filtering call of the exhaustive small-scope families (all boxes, all parameter "
             "vectors in scope) and of a seeded random corpus is replayed as one step of the TLA+ trace spec; TLC "
             "evaluates soundness (output inside input, every brute-force support kept, failure only without support).",
@@ -61,7 +65,8 @@ CHECKS = {
             TECH_ENGINE + "; TLC lemma on recorded trigger masks (Triggers.tla)"),
     "C09": ("model_checking", "Every branching decision and every backtrack of every trace is a Branch/Resume step of "
             "NucsAbs: non-empty, disjoint, covering ranges, other domains untouched, moved bounds announced for the "
-            "branch taken and recorded for each alternative, frames restored exactly, failure only at the root.",
+            "branch taken and recorded for each alternative, frames restored exactly, failure only at the root. Includes "
+            "problems with more than 256 shared domains (the recorded domain of an alternative needs more than 8 bits).",
             TRUST_ENGINE, TECH_ENGINE),
     "C10": ("model_checking", "Every shaving pass (with its nested probes, passes and backtracks consumed one by one) is "
             "validated: inside plain bound consistency (real routine on a copy) and inside the specification's greatest "
@@ -71,7 +76,8 @@ CHECKS = {
             "(scenarios = streams produced by the real worker methods on real splits): bag equality, best-of, None-iff, "
             "returns only after all workers, final statistics per worker, termination. Every arrival order TLC "
             "enumerates is replayed through the real parent loop and each run is judged by TLC (MPTrace.tla) against "
-            "the specification's parent and the sequential solver; real-process runs are validated the same way.",
+            "the specification's parent and the sequential solver; real-process runs are validated the same way. A third of "
+            "the scenarios hand over sub-solvers that were used sequentially before (drained, stepped once, optimised).",
             "Trusted: TLC, spec/MPParent.tla + MPSolver.tla + MPTrace.tla, harness/mp_worker.py (fake Queue/Process "
             "installed from outside). Scope: <= 4 workers, <= 11 messages per scenario for the exhaustive orders.",
             "TLA+ model checking of all interleavings (MPSolver.tla) + replay of every TLC-enumerated arrival order "
@@ -79,7 +85,8 @@ CHECKS = {
     "C12": ("model_checking", "spec/Split.tla states the ranges of a split and TLC proves the partition lemma for every "
             "[a,b] in -3..4 and k in 1..11; every recorded call of the real split (all those domains x k up to size+3 x "
             "three variable layouts, plus random problems) is judged by TLC: original unchanged, parts identical "
-            "elsewhere, ranges = the specification's, parts pairwise disjoint, union = brute-force solution set.",
+            "elsewhere, ranges = the specification's, parts pairwise disjoint, union = brute-force solution set. The problem "
+            "object is fresh, initialised, solved before, or held by an abandoned solver when it is split.",
             "Trusted: TLC, spec/Split.tla + NucsAbs!Solutions, harness/rec_split.py; the parts are enumerated by the "
             "real BacktrackSolver in its default configuration under a watchdog.",
             "TLC lemma on spec/Split.tla + TLA+ trace validation of recorded split calls (SplitTrace.tla)"),
@@ -96,7 +103,7 @@ CHECKS = {
             "failure exactly without support, idempotence of a second call, and affine_eq against the one-round "
             "interval operator AffineEqRound.", TRUST_CALLS, TECH_CALLS),
     "C15": ("model_checking", "spec/ProcessHistory.tla models one interpreter process over time (problem objects created and "
-            "re-used, solvers constructed / stepped / drained / abandoned, custom registrations in between); TLC "
+            "re-used, split after use - the part becomes a problem object of its own -, solvers constructed / stepped / drained / abandoned, custom registrations in between); TLC "
             "enumerates every history up to a bound, each is executed in one interpreter in interpreted and in compiled "
             "mode, and TLC compares every step with the reference run made in a fresh interpreter (solutions, final "
             "statistics, meaning of the problem object, the caller's own configuration objects - handed unchanged from "
@@ -122,13 +129,14 @@ CHECKS = {
     "C17": ("model_checking", "NucsAbs carries the observed event counts in the layout of the statistics array; at every "
             "pass end, yield, return and at the end the 13 reported counters must equal them; conservation laws are "
             "clauses of Done. Multiprocessing totals: real worker streams, TLC-enumerated arrival orders, the real parent "
-            "loop, sums / max judged by MPTrace.tla.", TRUST_ENGINE, TECH_ENGINE),
+            "loop, sums / max judged by MPTrace.tla. A further call on a used solver object: its counters go on from the earlier "
+            "totals or all restart from zero, never a mixture.", TRUST_ENGINE, TECH_ENGINE),
     "C18": ("fault_enumeration", "Design: MPSolver.tla with Crash(w) - under weak fairness the parent always returns or "
             "raises (and the blocking-read design is shown to hang, as a negative control). Code: real processes, every "
             "worker x death point (before the first message, between messages, before the completion marker) x "
             "enumeration/optimisation; the call must return or raise within the deadline.",
-            "Trusted: the fork start method, os._exit as the crash, deadlines of 25 s; crash points are message "
-            "boundaries.", "TLC liveness check of MPSolver.tla with crashes + fault injection on the real "
+            "Trusted: the fork start method, deadlines of 25 s; crash points are message boundaries; ways of dying: "
+            "os._exit(3), os._exit(0), SIGKILL, an exception escaping the worker, sys.exit(0).", "TLC liveness check of MPSolver.tla with crashes + fault injection on the real "
             "MultiprocessingSolver (fork-inherited queue wrapper, no source hook)"),
     "C19": ("model_checking", "spec/NucsMech.tla with stacks of 1..4 levels: the search never stands above the configured "
             "height, the capacity error is raised only when the stack is really full, and whatever is enumerated is "
